@@ -1,4 +1,5 @@
 import Proofs.DkgSchedule
+import Mathlib.Data.List.Induction
 
 /-! Invariants of a running Feldman-VSS-Qual instance are preserved by every delivery; deliveries respect the
 equivalence of states up to the order of the complaint table; hence the state after a round, and the verdict of
@@ -537,5 +538,315 @@ theorem round_independent (s : St O) (inv : Inv s) (l1 l2 : List Dl) (h : Swaps 
     have key := step_pair (p.foldl step s) ip e1 e2 hr
     exact relP_runList key (inv_step _ (inv_step _ ip e1) e2) (inv_step _ (inv_step _ ip e2) e1) q
   | trans _ _ ih1 ih2 => exact ih1.trans' ih2
+
+
+/-! ### delivery orders with the same per-sender, per-channel streams -/
+
+def Dl.chan (e : Dl) : Nat × Bool := (e.sender, e.isPriv)
+
+theorem reorderable_iff (a b : Dl) : reorderable a b ↔ a.chan ≠ b.chan := by
+  unfold reorderable Dl.chan
+  constructor
+  · rintro (h | h) he
+    · exact h (congrArg Prod.fst he)
+    · exact h (congrArg Prod.snd he)
+  · intro h
+    by_cases h1 : a.sender = b.sender
+    · right; intro h2; exact h (Prod.ext h1 h2)
+    · left; exact h1
+
+theorem reorderable_symm {a b : Dl} (h : reorderable a b) : reorderable b a := by
+  rw [reorderable_iff] at *; exact fun e => h e.symm
+
+theorem Swaps.symm {a b : List Dl} (h : Swaps a b) : Swaps b a := by
+  induction h with
+  | refl l => exact Swaps.refl l
+  | swap p q e1 e2 hr => exact Swaps.swap p q e2 e1 (reorderable_symm hr)
+  | trans _ _ ih1 ih2 => exact Swaps.trans ih2 ih1
+
+theorem Swaps.prepend (p : List Dl) {a b : List Dl} (h : Swaps a b) : Swaps (p ++ a) (p ++ b) := by
+  induction h with
+  | refl l => exact Swaps.refl _
+  | swap p' q e1 e2 hr =>
+    have := Swaps.swap (p ++ p') q e1 e2 hr
+    simpa [List.append_assoc] using this
+  | trans _ _ ih1 ih2 => exact Swaps.trans ih1 ih2
+
+/-- a delivery moves to the front across deliveries of other streams -/
+theorem Swaps.bubble (a b : List Dl) (e : Dl) (h : ∀ x ∈ a, reorderable x e) : Swaps (a ++ e :: b) (e :: a ++ b) := by
+  induction a using List.reverseRecOn generalizing b with
+  | nil => exact Swaps.refl _
+  | append_singleton a x ih =>
+    have hx : reorderable x e := h x (by simp)
+    have h1 : Swaps (a ++ [x] ++ e :: b) (a ++ e :: x :: b) := by
+      have := Swaps.swap a b x e hx
+      simpa [List.append_assoc] using this
+    have h2 : Swaps (a ++ e :: (x :: b)) (e :: a ++ (x :: b)) := ih (x :: b) (fun y hy => h y (by simp [hy]))
+    have h3 : e :: a ++ (x :: b) = e :: (a ++ [x]) ++ b := by simp
+    rw [h3] at h2
+    exact Swaps.trans h1 h2
+
+def stream (l : List Dl) (c : Nat × Bool) : List Dl := l.filter (fun e => e.chan == c)
+
+/-- **two delivery orders with the same stream per sender and channel are related by transpositions of
+    reorderable deliveries** -/
+theorem swaps_of_streams : ∀ (l1 l2 : List Dl), (∀ c, stream l1 c = stream l2 c) → Swaps l1 l2 := by
+  intro l1
+  induction l1 with
+  | nil =>
+    intro l2 h
+    cases l2 with
+    | nil => exact Swaps.refl _
+    | cons x t =>
+      have := h x.chan
+      simp [stream] at this
+  | cons e t ih =>
+    intro l2 h
+    -- split l2 at the first delivery of the stream of `e`
+    have hne : stream l2 e.chan ≠ [] := by
+      rw [← h e.chan]; simp [stream]
+    obtain ⟨a, e', b, hl2, ha, he'⟩ : ∃ a e' b, l2 = a ++ e' :: b ∧ (∀ x ∈ a, x.chan ≠ e.chan) ∧ e'.chan = e.chan := by
+      clear h ih
+      induction l2 with
+      | nil => simp [stream] at hne
+      | cons y u ihu =>
+        by_cases hy : y.chan = e.chan
+        · exact ⟨[], y, u, rfl, by simp, hy⟩
+        · have : stream u e.chan ≠ [] := by
+            intro hu; apply hne
+            simp [stream, hy]; simpa [stream] using hu
+          obtain ⟨a, e', b, h1, h2, h3⟩ := ihu this
+          refine ⟨y :: a, e', b, by rw [h1]; rfl, ?_, h3⟩
+          intro x hx
+          rcases List.mem_cons.1 hx with rfl | hx
+          · exact hy
+          · exact h2 x hx
+    have hfa : stream a e.chan = [] := by
+      unfold stream
+      rw [List.filter_eq_nil_iff]
+      intro x hx; simpa using ha x hx
+    have hee : e' = e := by
+      have := h e.chan
+      rw [hl2] at this
+      simp only [stream, List.filter_cons, List.filter_append, beq_self_eq_true, if_true] at this
+      have hfa' : List.filter (fun x => x.chan == e.chan) a = [] := hfa
+      rw [hfa'] at this
+      have he2 : (e'.chan == e.chan) = true := by simpa using he'
+      rw [he2] at this
+      simp only [if_true, List.nil_append] at this
+      exact (List.cons.inj this).1.symm
+    subst hee
+    -- the remaining deliveries have the same streams
+    have hrest : ∀ c, stream t c = stream (a ++ b) c := by
+      intro c
+      have := h c
+      rw [hl2] at this
+      simp only [stream, List.filter_cons, List.filter_append] at this ⊢
+      by_cases hc : e'.chan = c
+      · have hc' : (e'.chan == c) = true := by simpa using hc
+        rw [hc'] at this
+        simp only [if_true] at this
+        have hfa' : List.filter (fun x => x.chan == c) a = [] := by rw [← hc]; exact hfa
+        rw [hfa'] at this ⊢
+        simp only [List.nil_append] at this ⊢
+        exact (List.cons.inj this).2
+      · have hc' : (e'.chan == c) = false := by simpa using hc
+        rw [hc'] at this
+        simpa using this
+    have h1 : Swaps (e' :: t) (e' :: (a ++ b)) := Swaps.prepend [e'] (ih (a ++ b) hrest)
+    have h2 : Swaps (a ++ e' :: b) (e' :: a ++ b) :=
+      Swaps.bubble a b e' (fun x hx => (reorderable_iff x e').2 (ha x hx))
+    rw [hl2]
+    exact Swaps.trans h1 h2.symm
+
+
+/-! ### timeouts and `End` -/
+
+theorem equiv_flag {a b : St O} (h : Equiv a b) (f : St O → St O)
+    (hf : ∀ t : St O, (f t).size = t.size ∧ (f t).threshold = t.threshold ∧ (f t).me = t.me ∧ (f t).dealer = t.dealer ∧
+      (f t).running = t.running ∧ (f t).a = t.a ∧ (f t).validKey = t.validKey ∧ (f t).complaints = t.complaints ∧
+      (f t).vA = t.vA ∧ (f t).vAReceived = t.vAReceived ∧ (f t).x = t.x ∧ (f t).xReceived = t.xReceived)
+    (h13 : (f a).disqualified = (f b).disqualified) (h14 : (f a).sharesTimeout = (f b).sharesTimeout)
+    (h15 : (f a).complaintsTimeout = (f b).complaintsTimeout) : Equiv (f a) (f b) := by
+  obtain ⟨g1, g2, g3, g4, g5, g6, g7, g8, g9, g10, g11, g12, _, _, _⟩ := h
+  obtain ⟨a1, a2, a3, a4, a5, a6, a7, a8, a9, a10, a11, a12⟩ := hf a
+  obtain ⟨b1, b2, b3, b4, b5, b6, b7, b8, b9, b10, b11, b12⟩ := hf b
+  exact ⟨by rw [a1, b1, g1], by rw [a2, b2, g2], by rw [a3, b3, g3], by rw [a4, b4, g4], by rw [a5, b5, g5],
+    by rw [a6, b6, g6], by rw [a9, b9, g7], by rw [a10, b10, g8], by rw [a11, b11, g9], by rw [a12, b12, g10],
+    by rw [a7, b7, g11], by rw [a8, b8]; exact g12, h13, h14, h15⟩
+
+/-- the local timeout step (`NextTimeout` on a running instance) -/
+def tstep (s : St O) : St O := (FvssQ.timeoutBody s).1
+
+def stFlag (s : St O) : St O := { s with sharesTimeout := true }
+def ctFlag (s : St O) : St O := { s with complaintsTimeout := true }
+
+theorem tstep_eq (s : St O) : tstep s =
+    if s.disqualified then (if !s.sharesTimeout then stFlag s else ctFlag s)
+    else if !s.sharesTimeout then
+      (if !s.vAReceived then setDisq (stFlag s) true
+       else if !s.xReceived then (FvssQ.buildComplaint (stFlag s)).1 else stFlag s)
+    else (if s.complaints.length > s.threshold then setDisq (ctFlag s) true else ctFlag s) := by
+  unfold tstep FvssQ.timeoutBody FvssQ.setSharesTimeout FvssQ.setComplaintsTimeout
+  by_cases hd : s.disqualified = true
+  · rw [if_pos hd, if_pos hd]
+    show (if (!s.sharesTimeout) = true then stFlag s else ctFlag s) = _
+    rfl
+  · rw [if_neg hd, if_neg hd]
+    by_cases hst : (!s.sharesTimeout) = true
+    · rw [if_pos hst, if_pos hst]
+      simp only []
+      by_cases hv : (!s.vAReceived) = true
+      · have hv' : (!({ s with sharesTimeout := true } : St O).vAReceived) = true := hv
+        rw [if_pos hv, if_pos hv']; rfl
+      · have hv' : ¬ (!({ s with sharesTimeout := true } : St O).vAReceived) = true := hv
+        rw [if_neg hv, if_neg hv']
+        by_cases hx : (!s.xReceived) = true
+        · have hx' : (!({ s with sharesTimeout := true } : St O).xReceived) = true := hx
+          rw [if_pos hx, if_pos hx']; rfl
+        · have hx' : ¬ (!({ s with sharesTimeout := true } : St O).xReceived) = true := hx
+          rw [if_neg hx, if_neg hx']; rfl
+    · rw [if_neg hst, if_neg hst]
+      simp only []
+      by_cases hl : s.complaints.length > s.threshold
+      · have hl' : ({ s with complaintsTimeout := true } : St O).complaints.length >
+            ({ s with complaintsTimeout := true } : St O).threshold := hl
+        rw [if_pos hl, if_pos hl']; rfl
+      · have hl' : ¬ ({ s with complaintsTimeout := true } : St O).complaints.length >
+            ({ s with complaintsTimeout := true } : St O).threshold := hl
+        rw [if_neg hl, if_neg hl']; rfl
+
+theorem equiv_stFlag {a b : St O} (h : Equiv a b) : Equiv (stFlag a) (stFlag b) :=
+  equiv_flag h stFlag (fun _ => ⟨rfl, rfl, rfl, rfl, rfl, rfl, rfl, rfl, rfl, rfl, rfl, rfl⟩)
+    h.2.2.2.2.2.2.2.2.2.2.2.2.1 rfl h.2.2.2.2.2.2.2.2.2.2.2.2.2.2
+
+theorem equiv_ctFlag {a b : St O} (h : Equiv a b) : Equiv (ctFlag a) (ctFlag b) :=
+  equiv_flag h ctFlag (fun _ => ⟨rfl, rfl, rfl, rfl, rfl, rfl, rfl, rfl, rfl, rfl, rfl, rfl⟩)
+    h.2.2.2.2.2.2.2.2.2.2.2.2.1 h.2.2.2.2.2.2.2.2.2.2.2.2.2.1 rfl
+
+theorem tstep_equiv {a b : St O} (h : Equiv a b) (hn : KeysNodup a) : Equiv (tstep a) (tstep b) := by
+  rw [tstep_eq, tstep_eq]
+  have g := h
+  obtain ⟨g1, g2, g3, g4, g5, g6, g7, g8, g9, g10, g11, g12, g13, g14, g15⟩ := g
+  rw [← g13, ← g14, ← g8, ← g10, ← g12.length_eq, ← g2]
+  split
+  · split
+    · exact equiv_stFlag h
+    · exact equiv_ctFlag h
+  · split
+    · split
+      · exact equiv_setDisq (equiv_stFlag h) true
+      · split
+        · rw [bc_upd, bc_upd]
+          have e1 := equiv_stFlag h
+          have := ownF_equiv e1 hn
+          unfold ownF at this
+          rw [this, show (stFlag a).me = (stFlag b).me from g3]
+          exact equiv_applyUpd e1 _ _
+        · exact equiv_stFlag h
+    · split
+      · exact equiv_setDisq (equiv_ctFlag h) true
+      · exact equiv_ctFlag h
+
+
+theorem tstep_disq (s : St O) (h : s.disqualified = true) : (tstep s).disqualified = true := by
+  rw [tstep_eq, if_pos h]
+  split <;> exact h
+
+theorem relP_tstep {a b : St O} (h : RelP a b) (hn : KeysNodup a) : RelP (tstep a) (tstep b) := by
+  rcases h with h | h
+  · exact Or.inl ⟨tstep_disq a h.1, tstep_disq b h.2⟩
+  · exact Or.inr (tstep_equiv h hn)
+
+theorem inv_tstep (s : St O) (inv : Inv s) : Inv (tstep s) := by
+  rw [tstep_eq]
+  have istF : Inv (stFlag s) := by
+    refine ⟨inv.hme, inv.nodup, inv.wf, inv.vecok, ?_⟩
+    intro c _ _; exact Or.inr rfl
+  have ictF : Inv (ctFlag s) := ⟨inv.hme, inv.nodup, inv.wf, inv.vecok, inv.own⟩
+  by_cases hd : s.disqualified = true
+  · rw [if_pos hd]
+    split
+    · exact istF
+    · exact ictF
+  · have hdq : s.disqualified = false := by simpa using hd
+    rw [if_neg hd]
+    split
+    · split
+      · exact inv_congr (stFlag s) _ istF rfl rfl rfl (fun _ h => by cases h) (fun h => h) rfl
+      · split
+        · rw [bc_upd]
+          apply inv_applyUpd (stFlag s) istF hdq _ _ (bcU_wf _ _ _)
+          intro c _ _; exact Or.inr rfl
+        · exact istF
+    · split
+      · exact inv_congr (ctFlag s) _ ictF rfl rfl rfl (fun _ h => by cases h) (fun h => h) rfl
+      · exact ictF
+
+/-- what `End` returns -/
+def endRes (s : St O) : Res := (FvssQ.endBody s).2.2
+
+theorem endRes_eq (s : St O) : endRes s =
+    if s.disqualified ∨ s.complaints.any (fun kc => kc.2.received && !kc.2.answerReceived) then .failure
+    else match s.vA with
+      | none => .failure
+      | some v => if s.x = 0 then .failure else if O.groupKeyIsIdentity v then .failure
+                  else .keys s.x (O.groupKey v) (O.pubShares v) := by
+  unfold endRes FvssQ.endBody FvssQ.settle
+  simp only []
+  by_cases hd : s.disqualified = true
+  · simp [hd]
+  · have hd' : s.disqualified = false := by simpa using hd
+    by_cases ha : (s.complaints.any fun kc => kc.2.received && !kc.2.answerReceived) = true
+    · simp [hd', ha]
+    · have ha' : (s.complaints.any fun kc => kc.2.received && !kc.2.answerReceived) = false := by simpa using ha
+      simp only [hd', ha', Bool.not_false, Bool.false_eq_true, and_false, if_false, false_or]
+      cases s.vA with
+      | none => rfl
+      | some v =>
+        simp only []
+        split
+        · rfl
+        · split <;> rfl
+
+/-- **`End` returns the same result on related states** -/
+theorem endRes_relP {a b : St O} (h : RelP a b) : endRes a = endRes b := by
+  rw [endRes_eq, endRes_eq]
+  rcases h with h | h
+  · simp [h.1, h.2]
+  · obtain ⟨_, _, _, _, _, _, g7, _, g9, _, _, g12, g13, _, _⟩ := h
+    rw [g13, g7, g9, List.Perm.any_eq g12]
+
+/-- a complete execution of the three rounds at one participant: deliveries, timeout, deliveries, timeout,
+    deliveries, `End` -/
+def exec (s : St O) (r1 r2 r3 : List Dl) : Res :=
+  endRes (runList (tstep (runList (tstep (runList s r1)) r2)) r3)
+
+/-- **the result of `End` does not depend on the order in which the network delivers the messages of each
+    round**: any two executions whose rounds have the same stream of deliveries per sender and channel
+    (broadcasts of one sender keep their order, private messages of one sender keep theirs) end with the same
+    verdict and, on success, the same keys -/
+theorem exec_order_independent (s : St O) (inv : Inv s) (r1 r1' r2 r2' r3 r3' : List Dl)
+    (h1 : ∀ c, stream r1 c = stream r1' c) (h2 : ∀ c, stream r2 c = stream r2' c)
+    (h3 : ∀ c, stream r3 c = stream r3' c) : exec s r1 r2 r3 = exec s r1' r2' r3' := by
+  unfold exec
+  apply endRes_relP
+  -- round 1
+  have a1 := round_independent s inv r1 r1' (swaps_of_streams r1 r1' h1)
+  have i1 := inv_runList s inv r1
+  have i1' := inv_runList s inv r1'
+  have b1 := relP_tstep a1 i1.nodup
+  have j1 := inv_tstep _ i1
+  have j1' := inv_tstep _ i1'
+  -- round 2
+  have a2 : RelP (runList (tstep (runList s r1)) r2) (runList (tstep (runList s r1')) r2') :=
+    (relP_runList b1 j1 j1' r2).trans' (round_independent _ j1' r2 r2' (swaps_of_streams r2 r2' h2))
+  have i2 := inv_runList _ j1 r2
+  have i2' := inv_runList _ j1' r2'
+  have b2 := relP_tstep a2 i2.nodup
+  have j2 := inv_tstep _ i2
+  have j2' := inv_tstep _ i2'
+  -- round 3
+  exact (relP_runList b2 j2 j2' r3).trans' (round_independent _ j2' r3 r3' (swaps_of_streams r3 r3' h3))
 
 end Proofs.DkgCommute
